@@ -195,6 +195,33 @@ def pair_programs(rng, n):
     return progs
 
 
+def mixed_pair_programs(rng, n):
+    """A global constraint and a simple one over the same variables, in BOTH orders (solver selection must not depend on order)."""
+    progs = []
+    shapes = ["v?w", "v+k?w", "v?k", "v+w?k", "v-w?k"]
+    for _ in range(n):
+        kind = rng.choice(["sum", "sum", "circuit", "no_overlap", "cumulative"])
+        if kind == "sum":
+            doms = [rng.choice(DOMS[:4]) for _ in range(3)]
+            g = ("sum", rng.choice(["eq", "le", "ge"]), [0, 1, 2], rng.randint(0, 6))
+        elif kind == "circuit":
+            doms = [(0, 2)] * 3
+            g = ("circuit", [0, 1, 2])
+        elif kind == "no_overlap":
+            doms = [(0, 3)] * 3
+            g = ("no_overlap", [0, 1, 2], [rng.randint(1, 2) for _ in range(3)])
+        else:
+            doms = [(0, 3)] * 3
+            g = ("cumulative", [0, 1, 2], [rng.randint(1, 2) for _ in range(3)], [1, 1, 1], rng.randint(1, 2))
+        s1 = rng.choice(shapes)
+        nv, nk, _f = SHAPES[s1]
+        simple = ("lin", s1, rng.sample(range(3), nv), [rng.choice([0, 1, 2]) for _ in range(nk)], rng.random() < 0.4) if rng.random() < 0.7 \
+            else ("alldiff", [0, 1, 2])
+        progs.append({"vars": doms, "cons": [g, simple]})
+        progs.append({"vars": doms, "cons": [simple, g]})
+    return progs
+
+
 def chunks(lst, k):
     return [lst[i:i + k] for i in range(0, len(lst), k)]
 
